@@ -85,6 +85,22 @@ func opConf(a []string) string {
 	var b strings.Builder
 	b.WriteString("info:\n  version: 0.9.0\n  description: generated\n\nconfiguration:\n")
 	for _, tok := range a {
+		if strings.HasPrefix(tok, "#pad=") {
+			// n octets of comment lines at this point of the file (a documented, commented configuration is a long file)
+			n := int(aU64(tok[5:]))
+			for n > 0 {
+				l := 78
+				if l > n-1 {
+					l = n - 1
+				}
+				if l < 1 {
+					l = 1
+				}
+				b.WriteString("  #" + strings.Repeat("-", l-1) + "\n")
+				n -= l + 3
+			}
+			continue
+		}
 		f := strings.SplitN(tok, "=", 3)
 		if len(f) != 3 {
 			panic(badArg{})
@@ -330,6 +346,16 @@ func (e *emitter) confCase(keys []string, all bool) {
 	}
 	if len(toks) == 0 {
 		return
+	}
+	// one file in six is long: comment blocks before, between and after the keys (files of 4 KiB .. 80 KiB)
+	if e.rng.Intn(6) == 0 {
+		sizes := []int{300, 2000, 4096, 5000, 9000, 33000, 70000}
+		at := e.rng.Intn(len(toks) + 1)
+		pad := "#pad=" + strconv.Itoa(sizes[e.rng.Intn(len(sizes))])
+		toks = append(toks[:at:at], append([]string{pad}, toks[at:]...)...)
+		if e.rng.Intn(2) == 0 {
+			toks = append([]string{"#pad=" + strconv.Itoa(sizes[e.rng.Intn(4)])}, toks...)
+		}
 	}
 	e.op("conf", toks...)
 }
